@@ -345,6 +345,9 @@ static void case_vsh(Rng& rng, uint64_t index)
 	}
 	// a result kept by reference stays what it was when another harmonic is evaluated afterwards (binding a returned temporary to a const reference is
 	// ordinary C++; seeded change C17-r7m1 returned a reference to one buffer shared by all calls)
+	// (one case in three: the extra calls change the call history of the cases that follow, and histories in which a direction is used for several
+	// (l,m) in a row and then changed are what exposes stale per-direction caches - seeded change C17-r2m2)
+	if(index % 3 == 0)
 	{
 		const std::vector<std::complex<double>>& heldY = Vector_Spherical_Harmonics_Y(l, m, D.th, D.ph);
 		const std::vector<std::complex<double>>& heldP = Vector_Spherical_Harmonics_Psi(l, m, D.th, D.ph);
